@@ -33,6 +33,7 @@ import (
 	"github.com/pkg/sftp"
 
 	"verifharness/lib"
+	"verifharness/wire"
 )
 
 func init() {
@@ -49,9 +50,16 @@ type xfOp struct {
 	Seed int    `json:"seed,omitempty"`
 	Src  string `json:"src,omitempty"`
 	Conc int    `json:"conc,omitempty"`
+	// scripted peer only: the READ/WRITE requests of these chunk indices (of this call's chunk plan) are
+	// answered with a failure status (the first with Code, the others with 4)
+	Fail []int  `json:"fail_chunks,omitempty"`
+	Code uint32 `json:"fail_code,omitempty"`
 }
 
 func (o xfOp) model() string {
+	if len(o.Fail) > 0 {
+		return "" // per-call failures are outside the driver's call syntax
+	}
 	switch o.K {
 	case "r":
 		return fmt.Sprintf("r:%d", o.N)
@@ -93,14 +101,18 @@ type xfSeqCase struct {
 	Ops     []xfOp    `json:"ops"`
 	Window  int       `json:"window,omitempty"`
 	Seed    int64     `json:"perm_seed,omitempty"`
-	Race    *xfRace   `json:"race,omitempty"` // a race trial instead of a sequence
+	Limit   int64     `json:"rs_write_limit,omitempty"` // request server only: writes reaching beyond this offset are refused by the handler
+	Race    *xfRace   `json:"race,omitempty"`           // a race trial instead of a sequence
 }
 
 func (sc xfSeqCase) Text() string {
 	var sb strings.Builder
-	fmt.Fprintf(&sb, "%s %s S%d w%d:", sc.Srv, sc.Cfg, sc.FileLen, sc.Window)
+	fmt.Fprintf(&sb, "%s %s S%d w%d q%d:", sc.Srv, sc.Cfg, sc.FileLen, sc.Window, sc.Limit)
 	for _, o := range sc.Ops {
 		fmt.Fprintf(&sb, " %s/%d/%d/%d/%s/%d", o.K, o.N, o.Off, o.Wh, o.Src, o.Conc)
+		if len(o.Fail) > 0 {
+			fmt.Fprintf(&sb, "/f%v=%d", o.Fail, o.Code)
+		}
 	}
 	return sb.String()
 }
@@ -119,6 +131,7 @@ type xfSeqResult struct {
 	FileText string
 	Modelled bool
 	SetupErr error
+	Failing  map[string]int // calls that ran with an injected failure, by kind
 }
 
 // xfWriteToPath tells which reader WriteTo uses for a file of size S.
@@ -168,8 +181,11 @@ func xfRunSeq(sc xfSeqCase, real *xfReal, hold *xfPeerHold, dir string) (res xfS
 		}
 		if real.Mem != nil {
 			_, closesBefore = real.Mem.Counts()
+			real.Mem.SetLimit(sc.Limit)
+			defer real.Mem.SetLimit(0)
 		}
 	}
+	path0 := path
 	twinPath := filepath.Join(dir, "twin")
 	if err := os.WriteFile(twinPath, initial, 0o644); err != nil {
 		res.SetupErr = err
@@ -200,10 +216,49 @@ func xfRunSeq(sc xfSeqCase, real *xfReal, hold *xfPeerHold, dir string) (res xfS
 	closed := false
 	lastOff := int64(0)
 	var parts []string
-	res.Modelled = true
+	res.Modelled = sc.Limit == 0
+	res.Failing = map[string]int{}
 	for i, op := range sc.Ops {
 		if op.model() == "" {
 			res.Modelled = false
+		}
+		// --- failure injection: the scripted peer answers chosen chunks of this call with a failure status;
+		// the request server's handler refuses writes beyond its quota ---
+		var offBefore, sizeBefore, start int64
+		var failMap map[int64]xfFail
+		inject, quota := false, false
+		isW := op.K == "w" || op.K == "wa" || op.K == "rf" || op.K == "rfc"
+		isR := op.K == "r" || op.K == "ra"
+		if !closed && (isW || isR) {
+			offBefore, _ = tw.Seek(0, io.SeekCurrent)
+			if st, e := tw.Stat(); e == nil {
+				sizeBefore = st.Size()
+			}
+			start = offBefore
+			if op.K == "ra" || op.K == "wa" {
+				start = op.Off
+			}
+			if peer != nil && len(op.Fail) > 0 && op.N > 0 {
+				plan := xfPlan(sc.Cfg.MP, start, op.N)
+				failMap = map[int64]xfFail{}
+				for j, idx := range op.Fail {
+					if idx >= 0 && idx < len(plan) {
+						code := op.Code
+						if j > 0 || code == 0 {
+							code = wire.Failure
+						}
+						failMap[plan[idx].Off] = xfFail{Code: code, Msg: fmt.Sprintf("fail@%d", plan[idx].Off)}
+					}
+				}
+				if inject = len(failMap) > 0; inject {
+					peer.TakeApplied()
+					peer.SetBehaviour(func(o *xfPeerOpts) { o.Fail = failMap })
+				}
+			}
+			if real != nil && real.Mem != nil && isW {
+				real.Mem.TakeApplied()
+				quota = sc.Limit > 0 && op.N > 0 && start+int64(op.N) > sc.Limit
+			}
 		}
 		var sn, tn int64
 		var serr, terr error
@@ -281,6 +336,10 @@ func xfRunSeq(sc xfSeqCase, real *xfReal, hold *xfPeerHold, dir string) (res xfS
 				terr = tw.Close()
 			}
 		})
+		consumed := int64(-1)
+		if src.Consumed != nil && ok {
+			consumed = src.Consumed()
+		}
 		if src.Cleanup != nil {
 			src.Cleanup()
 		}
@@ -321,6 +380,104 @@ func xfRunSeq(sc xfSeqCase, real *xfReal, hold *xfPeerHold, dir string) (res xfS
 				fail(i, "after-close/twin/"+op.K, "os.File itself does not return os.ErrClosed here", "os.ErrClosed", fmt.Sprint(terr))
 			}
 			parts = append(parts, fmt.Sprintf("%d:0:closed:7", lastOff))
+			continue
+		}
+		if inject || quota {
+			// The mirrored os.File cannot fail on demand. Reference: the call moves the offset exactly by the
+			// intact prefix it transferred (ReadAt/WriteAt: not at all); the prefix is what the server
+			// really stored, contiguously from the start offset, as recorded by the server side itself.
+			res.Failing[op.K]++
+			var applied []xfChunk
+			if peer != nil {
+				if !peer.Settle() {
+					fail(i, key+"/failing/hang", "the connection did not settle after a failed transfer", "idle", "hang")
+					if hold != nil {
+						hold.Close()
+					}
+					return
+				}
+				applied = peer.TakeApplied()
+				peer.SetBehaviour(func(o *xfPeerOpts) { o.Fail = nil; o.Window = sc.Window })
+			} else {
+				xfGuard(func() { cli.Lstat(path0) }) // responses are sent in request order: every earlier WRITE is done
+				applied = real.Mem.TakeApplied()
+			}
+			so, e1 := f.Seek(0, io.SeekCurrent)
+			if e1 != nil {
+				fail(i, key+"/failing/offset-query", "Seek(0, io.SeekCurrent) failed", nil, e1.Error())
+				return
+			}
+			got := fmt.Sprintf("(%d, %v), offset %d -> %d", sn, serr, offBefore, so)
+			fm := map[string]xfFail{}
+			for o, v := range failMap {
+				fm[fmt.Sprint(o)] = v
+			}
+			wantOff := offBefore
+			nfail := len(res.Fails)
+			if isR {
+				w := xfC13Want(xfCase{Cfg: sc.Cfg, API: "ReadAt", FileLen: int(sizeBefore), Off: start, Len: op.N, Fail: fm})
+				if sn != w.N || !w.errOK(serr) {
+					fail(i, key+"/failing/result", "a read with a failing chunk must return the prefix below the lowest failing offset and that chunk's error", fmt.Sprintf("(%d, %s)", w.N, w.errText()), got)
+				} else if !bytes.Equal(sdata, tdata[:min(int(sn), len(tdata))]) {
+					fail(i, key+"/failing/data", "the prefix delivered differs from the file's bytes", xfShort(tdata[:min(int(sn), len(tdata))]), xfShort(sdata))
+				}
+				if op.K == "r" {
+					wantOff = offBefore + w.N
+				}
+			} else {
+				prefix := xfAppliedPrefix(applied, start, op.N)
+				var w xfWant
+				if quota {
+					for _, ch := range xfPlan(sc.Cfg.MP, start, op.N) {
+						if ch.Off+int64(ch.Len) > sc.Limit {
+							break
+						}
+						w.N += int64(ch.Len)
+					}
+					if serr == nil || xfErrClass(serr) != "srv4" {
+						fail(i, key+"/failing/error", "a write refused by the handler must return the server's failure status", "status 4", got)
+					}
+				} else {
+					w = xfC13Want(xfCase{Cfg: sc.Cfg, API: "WriteAt", FileLen: int(sizeBefore), Off: start, Len: op.N, Fail: fm})
+					if !w.errOK(serr) {
+						fail(i, key+"/failing/error", "a write with a failing chunk must return the error of the lowest failing offset", w.errText(), got)
+					}
+				}
+				if prefix != w.N {
+					fail(i, key+"/failing/prefix", "the bytes stored contiguously from the start offset are not the chunks below the first failing one", w.N, prefix)
+				}
+				switch op.K {
+				case "w", "wa":
+					if sn != prefix {
+						fail(i, key+"/failing/count", "the count is not the number of bytes transferred (stored contiguously from the start offset)", prefix, got)
+					}
+				default:
+					if sn != consumed {
+						fail(i, key+"/failing/count-vs-consumed", "ReadFrom's count is not the number of bytes consumed from the source", consumed, got)
+					}
+				}
+				if op.K != "wa" {
+					wantOff = offBefore + prefix
+				}
+			}
+			if so != wantOff {
+				what := "the File offset did not advance exactly by the bytes transferred (offset before + intact prefix)"
+				if op.K == "ra" || op.K == "wa" {
+					what = "a failing ReadAt/WriteAt moved the File offset"
+				}
+				fail(i, key+"/failing/offset", what, wantOff, got)
+			}
+			if len(res.Fails) > nfail {
+				return
+			}
+			// bring the twin to the served file's state (what lies beyond the prefix depends on the schedule)
+			content := getFile()
+			if tw.Truncate(0) != nil {
+				return
+			}
+			tw.WriteAt(content, 0)
+			tw.Seek(wantOff, io.SeekStart)
+			lastOff = so
 			continue
 		}
 		// result categories
@@ -449,7 +606,7 @@ func xfRunSeq(sc xfSeqCase, real *xfReal, hold *xfPeerHold, dir string) (res xfS
 
 // ---------- sequence generator ----------
 
-func xfGenSeq(rng *rand.Rand, cfg xfCfg, n int) (S int, ops []xfOp) {
+func xfGenSeq(rng *rand.Rand, cfg xfCfg, n int, failable bool) (S int, ops []xfOp) {
 	mp := cfg.MP
 	S = xfPickSize(rng, cfg)
 	if S > 3*mp*4+2 {
@@ -524,6 +681,17 @@ func xfGenSeq(rng *rand.Rand, cfg xfCfg, n int) (S int, ops []xfOp) {
 				op.N = cur + rng.Intn(mp+2)
 			}
 			cur = op.N
+		}
+		if failable && op.N > 0 && rng.Intn(4) == 0 {
+			switch k {
+			case "r", "ra", "w", "wa", "rf", "rfc":
+				nch := (op.N + mp - 1) / mp
+				op.Fail = []int{rng.Intn(nch)}
+				if nch > 1 && rng.Intn(2) == 0 {
+					op.Fail = append(op.Fail, rng.Intn(nch))
+				}
+				op.Code = []uint32{wire.Failure, wire.Failure, wire.PermissionDenied}[rng.Intn(3)]
+			}
 		}
 		if int64(cur) > limit {
 			// pull the file back to a small size
@@ -738,7 +906,7 @@ func checkC12(c *lib.Ctx) {
 	r := c.R
 	res := &xfRes{r: r}
 	thorough := c.Tier == "thorough"
-	r.Rule = "(a) WriteTo offset sweep: file sizes 0..3*mp*min(conc,3)+2 x start offsets {0,1,mp,size-1,size,size+1} x UseConcurrentReads x UseFstat x (mp,conc) on the scripted peer; (b) PRNG sequences (quick ~12, thorough ~40 calls + Close + 4..18 calls after Close) of Read/ReadAt/Write/WriteAt/ReadFrom(6 source kinds)/ReadFromWithConcurrency/WriteTo/Seek(whence 0,1,2 and invalid 5,7,-1; negative targets)/Stat/Truncate on os-backed server, request server and scripted peer (in order and permuted replies) x client options (quick: every (mp,conc) pair with rotating booleans, thorough: full product), mirrored on an *os.File; (c) Close raced by 2 closers against 3..8 goroutines of ReadAt/WriteAt/Stat/Truncate on the scripted peer with the raw request stream parsed; non-trivial = a sequence that moves the offset through at least two different methods; distinct by the whole case text"
+	r.Rule = "(a) WriteTo offset sweep: file sizes 0..3*mp*min(conc,3)+2 x start offsets {0,1,mp,size-1,size,size+1} x UseConcurrentReads x UseFstat x (mp,conc) on the scripted peer; (b) PRNG sequences (quick ~12, thorough ~40 calls + Close + 4..18 calls after Close) of Read/ReadAt/Write/WriteAt/ReadFrom(6 source kinds)/ReadFromWithConcurrency/WriteTo/Seek(whence 0,1,2 and invalid 5,7,-1; negative targets)/Stat/Truncate on os-backed server, request server and scripted peer (in order and permuted replies); in every second peer sequence a quarter of the read/write calls have 1-2 PRNG-chosen chunks answered with status 4/3, in every second request-server sequence the handler refuses writes beyond a PRNG quota: there the reference is offset-before + the intact prefix the server side recorded as stored (ReadAt/WriteAt: unchanged) x client options (quick: every (mp,conc) pair with rotating booleans, thorough: full product), mirrored on an *os.File; (c) Close raced by 2 closers against 3..8 goroutines of ReadAt/WriteAt/Stat/Truncate on the scripted peer with the raw request stream parsed; non-trivial = a sequence that moves the offset through at least two different methods; distinct by the whole case text"
 	model := xfProbeModel(c)
 	xfProbeDefects(&model)
 	if model.Seq {
@@ -920,8 +1088,11 @@ func checkC12(c *lib.Ctx) {
 			if job.Cfg.MP > 1000 {
 				n = 4 + rng.Intn(6)
 			}
-			S, ops := xfGenSeq(rng, job.Cfg, n)
+			S, ops := xfGenSeq(rng, job.Cfg, n, job.Spec.Kind == "peer" && s%2 == 1)
 			sc := xfSeqCase{Srv: job.Spec, Cfg: job.Cfg, FileLen: S, Ops: ops, Window: 1}
+			if job.Spec.Kind == "rs" && s%2 == 1 {
+				sc.Limit = int64(S/2 + 1 + rng.Intn(S/2+2*job.Cfg.MP+2))
+			}
 			if job.Spec.Perm {
 				sc.Seed = rng.Int63()
 				sc.Window = 2 + rng.Intn(job.Cfg.Conc+1)
@@ -956,6 +1127,11 @@ func checkC12(c *lib.Ctx) {
 				hs = append(hs, k)
 				if o.K == "cl" && closedAt < 0 {
 					closedAt = i
+				}
+			}
+			for k, n := range sr.Failing {
+				for ; n > 0; n-- {
+					hs = append(hs, "call="+k+"|injected-failure|srv="+job.Spec.Kind)
 				}
 			}
 			res.Hist(hs...)
